@@ -270,20 +270,19 @@ func scenC04(w *vsim.World, spec *vsim.Spec) {
 		if s.Op == "copy-write" {
 			lastCopyWrite[root] = time.Now()
 		}
-		if s.Op == "rename" && strings.Contains(s.Path, "/tmp") && time.Since(taskStart[root]) >= ttl-smallJumps {
-			base := filepath.Base(s.Path2)
-			if len(base) == 32 {
-				stalledWriter[base] = true
-				stalledRenameAt[base] = time.Now()
-				w.Probe("writer-in-flight-for-a-whole-ttl")
-			}
-		}
-		if s.Op == "chtimes" && time.Since(taskStart[root]) >= ttl-smallJumps {
-			// a Touch (TOUCH, or PUT of an existing copy) that read the clock a whole TTL ago applies that timestamp now
-			if base := filepath.Base(s.Path); len(base) == 32 {
-				stalledWriter[base] = true
-				stalledRenameAt[base] = time.Now()
-				w.Probe("touch-in-flight-for-a-whole-ttl")
+		// A request (PUT, TOUCH, untrash) that has been in flight for a whole TTL and now applies a timestamp it
+		// chose back then, or moves a file into place that carries one: the family of the recorded TTL-stall findings.
+		if (s.Op == "rename" || s.Op == "chtimes") && strings.Contains(root, ">") && time.Since(taskStart[root]) >= ttl-smallJumps {
+			for _, pth := range []string{s.Path, s.Path2} {
+				base := filepath.Base(pth)
+				if strings.HasPrefix(base, "tmp") {
+					base = strings.TrimPrefix(base, "tmp")
+				}
+				if len(base) >= 32 && isHex32(base[:32]) && !(s.Op == "rename" && pth == s.Path && strings.Contains(s.Path2, ".trash.")) {
+					stalledWriter[base[:32]] = true
+					stalledRenameAt[base[:32]] = time.Now()
+					w.Probe("request-in-flight-for-a-whole-ttl-applies-its-timestamp")
+				}
 			}
 		}
 		if strings.HasSuffix(s.Task, "trashworker") && s.Op == "stat" {
@@ -454,4 +453,16 @@ func scenC04(w *vsim.World, spec *vsim.Spec) {
 	node.kill()
 	w.Quiesce()
 	w.SetEndState(fmt.Sprintf("%d clients %d guards", nclients, len(guards)))
+}
+
+func isHex32(s string) bool {
+	if len(s) != 32 {
+		return false
+	}
+	for _, c := range s {
+		if !(c >= '0' && c <= '9' || c >= 'a' && c <= 'f') {
+			return false
+		}
+	}
+	return true
 }
